@@ -72,6 +72,8 @@ def check(tier, seed, replay=None):
         "rows_with_nonzero_sensitivity": nonzero,
         "solutions": sum(1 for e in events if e["out"] == "solution"),
         "families": meta,
+        "unverifiable_overflow": v.overflow_ids[:10],
+        "unverifiable_overflow_count": len(v.overflow_ids),
     }
     o.assumptions = ["duals are snapped to rationals with denominator <= 500 within 1e-6 and compared at 1e-5 relative",
                      "only rows whose sensitivity is uniquely defined (differentiable optimum) are judged, as the property states"]
